@@ -673,38 +673,72 @@ def guards_of(fv, target, brs=None, prog=None):
     return out
 
 
-def matches_conj(fv, br, brs=None):
-    """If `br` switches on a bool temporary that is assigned only constants (the shape of `matches!` and of
-    `a && b` / `a || b`), return (true_guards, false_guards): the necessary guards of the blocks assigning true /
-    false (each a list of (Branch, labels)), else None."""
-    e = br.expr
-    if not (isinstance(e, tuple) and e[0] == "tmp"):
+class _Cond:
+    """A boolean expression standing in for a Branch in guard lists (only .expr is used)."""
+    def __init__(self, expr, bi):
+        self.expr = expr
+        self.bi = bi
+        self.adt = None
+        self.ty = "bool"
+
+
+def _bool_local_of(fv, e, at):
+    """Local index behind a switch operand that is a bool temporary or a named bool local (several locals may share a
+    name, one per scope: the one all of whose definitions reach `at` is taken)."""
+    if not isinstance(e, tuple) or not e:
         return None
-    ds = fv.defs().get(e[1], [])
-    if not ds:
+    if e[0] == "tmp":
+        return e[1]
+    if e[0] == "var":
+        cands = []
+        for l, n in fv.local_name.items():
+            if n != e[1] or l >= len(fv.f["locals"]) or fv.f["locals"][l] != "bool" or l <= fv.f.get("argc", 0):
+                continue
+            ds = [d for d in fv.defs().get(l, []) if d[0] in fv.live]
+            if ds and all(at in fv.reach(d[0]) or d[0] == at for d in ds):
+                cands.append(l)
+        if len(cands) == 1:
+            return cands[0]
+    return None
+
+
+def matches_conj(fv, br, brs=None, named=False):
+    """If `br` switches on a bool local that is assigned constants and/or computed values in different blocks (the shape
+    of `matches!`, of `a && b` / `a || b`, and of a hoisted `let cond = a && b;`), return (true_guards, false_guards): for
+    each way of becoming true / false the list of necessary (Branch-like, labels) conditions, else None."""
+    if not named and not (isinstance(br.expr, tuple) and br.expr and br.expr[0] == "tmp"):
         return None
-    tb, fb = [], []
+    l = _bool_local_of(fv, br.expr, br.bi)
+    if l is None:
+        return None
+    ds = [d for d in fv.defs().get(l, []) if d[0] in fv.live]
+    if len(ds) < 2:
+        return None            # a plain computed bool: the switch expression itself says everything
+    brs = brs or branches(fv)
+    rend = Renderer(fv)
+    tg, fg = [], []
     for bi, si, s in ds:
         if si == "t":
             return None
         rv = s["rv"]
-        if rv["r"] != "use" or "k" not in rv["o"] or rv["o"]["k"].get("v") is None:
-            # a computed bool assigned in one arm (e.g. `a && f(x)`): keep as opaque
-            return None
-        (tb if rv["o"]["k"]["v"] else fb).append(bi)
-    brs = brs or branches(fv)
-    tg = [guards_of(fv, b, brs) for b in tb]
-    fg = [guards_of(fv, b, brs) for b in fb]
+        if rv["r"] == "use" and "k" in rv["o"] and rv["o"]["k"].get("v") is not None:
+            (tg if rv["o"]["k"]["v"] else fg).append(guards_of(fv, bi, brs))
+            continue
+        # computed in this arm: true iff the value is true (on top of the arm's own guards)
+        e = rend.rvalue(rv, rend.depth)
+        base = guards_of(fv, bi, brs)
+        tg.append(base + [(_Cond(e, bi), {"true"})])
+        fg.append(base + [(_Cond(e, bi), {"false"})])
     return tg, fg
 
 
-def flat_guards(fv, target, brs=None, depth=3):
+def flat_guards(fv, target, brs=None, depth=3, named=False):
     """Necessary conditions for reaching target as (expr, labels, polarity_note) triples, expanding
     `matches!`-style bool temporaries on their true side (single true-assigning block)."""
     brs = brs or branches(fv)
     out = []
     for br, labels in guards_of(fv, target, brs):
-        mc = matches_conj(fv, br, brs) if depth > 0 else None
+        mc = matches_conj(fv, br, brs, named) if depth > 0 else None
         if mc is not None:
             tg, fg = mc
             if labels == {"true"} and len(tg) == 1:
